@@ -106,6 +106,27 @@ def run_peak(tools, path, args, stack, max_steps=400000000, timeout=120):
     return r
 
 
+def _expected_worker(job):
+    """reference values of the programs i = r mod k of the family (own process: the python
+    interpretation of 10N iterations is the slowest part of the check)"""
+    seed, nrandom, r, k, ns_tail, ns_other = job
+    progs = gen.family(seed, nrandom)
+    out = {}
+    for i, p in enumerate(progs):
+        if i % k == r:
+            out[i] = [p.expected(n) for n in (ns_tail if p.kind == "tail" else ns_other)]
+    return out
+
+
+def expected_values(seed, nrandom, ns_tail, ns_other, workers=16):
+    from concurrent.futures import ProcessPoolExecutor
+    res = {}
+    with ProcessPoolExecutor(workers) as ex:
+        for part in ex.map(_expected_worker, [(seed, nrandom, r, workers, ns_tail, ns_other) for r in range(workers)]):
+            res.update(part)
+    return res
+
+
 def verify_retry(tools, dump, **kw):
     """tools.verify, tolerant of the runner being re-linked by a concurrent build"""
     import time
@@ -140,7 +161,7 @@ def run(ctx):
     names = vmcheck.opcode_names()
     quick = ctx.tier == "quick"
     N1, N2 = (5000, 50000) if quick else (50000, 500000)
-    nrandom = 70 if quick else 700
+    nrandom = 70 if quick else 500
     stats = collections.Counter()
     dist = collections.Counter()
     nviol = [0]
@@ -209,6 +230,7 @@ def run(ctx):
         model_marks[int(pi)][fk] = set() if rest.strip() == "-" else set(rest.strip().split(";"))
 
     SMALL = 25
+    expv = expected_values(ctx.seed, nrandom, [SMALL, N1, N2], [SMALL, 20, 40])
 
     def one(p):
         res = {"p": p, "problems": []}
@@ -240,11 +262,10 @@ def run(ctx):
             if p.has_loop:
                 res["w1"] = run_peak(tools, p.path, [N1, 1], STACK)
                 res["w2"] = run_peak(tools, p.path, [N2, 1], STACK)
-            res["e1"], res["e2"] = p.expected(N1), p.expected(N2)
         else:
             res["t1"] = run_peak(tools, p.path, [20, 0], 4000)
             res["t2"] = run_peak(tools, p.path, [40, 0], 4000)
-            res["e1"], res["e2"] = p.expected(20), p.expected(40)
+        res["e0"], res["e1"], res["e2"] = expv[p.idx]
         return res
 
     results = vmcheck.pmap(one, progs)
@@ -324,7 +345,7 @@ def run(ctx):
             ctx.correspondence_broken("shape-machine-vs-vm(%s)" % p.shape_id, {"program": p.src, "lockstep": ver["lockstep"]})
         t1, t2 = res["t1"], res["t2"]
         e1, e2 = "0 int %d" % res["e1"], "0 int %d" % res["e2"]
-        small_ok = res["small_end"] == "0 int %d" % p.expected(SMALL)
+        small_ok = res["small_end"] == "0 int %d" % res["e0"]
         if p.kind == "tail":
             n1, n2 = N1, N2
             bad = None
